@@ -1,7 +1,7 @@
 (* C07: Honest participants follow protocol discipline in everything they emit.
    Model: Gpbft/Instance.v (Layer N), tied to gpbft.Participant by the event-trace correspondence (harness c07.go). *)
 From Coq Require Import ZArith List Bool Lia.
-From F3 Require Import GoInt QuorumGen Instance InstanceRun InstanceOrder InstanceVotes InstanceConverge InstanceDecide InstanceQuorum InstanceNoPanic QuorumProofs.
+From F3 Require Import GoInt QuorumGen Instance InstanceRun InstanceOrder InstanceVotes InstanceConverge InstanceDecide InstanceQuorum InstanceNoPanic InstanceJust QuorumProofs.
 Import ListNotations.
 Open Scope Z_scope.
 
@@ -144,6 +144,23 @@ Proof. exact cfg_wfb_spec. Qed.
 Print Assumptions C07_checked_committee_wf.
 Example C07_committee_wf_nonvacuous : committee_wf (mkCfg [21845; 21845; 21844] 65534 5 3 2 [1; 2] [1]).
 Proof. unfold committee_wf, two62; cbn. repeat split; try lia. repeat constructor; lia. Qed.
+
+(* THE no-internal-error clause, at full strength on the model: for every committee that is a real power table, every
+   input, every sequence of alarms and deliveries of messages that satisfy what validation guarantees (wfmb: round of the
+   carried justification, CONVERGE never bottom, DECIDE at round 0; arbitrary senders, values, ranks, orders,
+   duplicates and interleavings), the instance never records ANY internal error or panic *)
+Theorem C07_no_internal_error : forall c input now evs,
+  committee_wf c -> Forall (fun e => ev_okb e = true) evs ->
+  i_err (snd (run_hist c (started c input now) evs)) = None.
+Proof. exact no_internal_error_wf. Qed.
+Print Assumptions C07_no_internal_error.
+(* the example run below (after its EvStart) satisfies the hypotheses *)
+Example C07_no_internal_error_nonvacuous :
+  forallb ev_okb [ EvDeliver 10 (mkM 1 0 QUALITY [1; 2; 3] 0 None) None; EvAlarm 2000 None;
+                   EvDeliver 2020 (mkM 1 0 COMMIT [1; 2] 0 (Some (mkJ 0 PREPARE [1; 2] [1; 2]))) None;
+                   EvDeliver 2025 (mkM 2 1 CONVERGE [1] 7 (Some (mkJ 0 COMMIT [] [1; 2]))) None;
+                   EvDeliver 2030 (mkM 1 0 DECIDE [1; 2] 0 (Some (mkJ 0 COMMIT [1; 2] [1; 2]))) None ] = true.
+Proof. reflexivity. Qed.
 
 (* non-vacuity: a concrete run (3 members, subject 0 with input [1;2;3]) passes QUALITY, PREPARE, COMMIT and decides *)
 Definition ex_cfg := mkCfg [10; 30; 30] 70 4 2 2000 [2000; 3000; 4500] [700; 900; 1100].
